@@ -12,6 +12,7 @@ mod exact;
 mod gen;
 mod model;
 mod monitor;
+mod mps_model;
 mod props;
 mod qplib_model;
 mod rng;
